@@ -487,6 +487,15 @@ class Sim:
     def _inject_here(self, op):
         if self.inject is None or self.inject[0] == "START":
             return None
+        if self.inject[0] == "EVERY":
+            # a failing TRANSIENT constructor: every component whose inputs need it (directly or through
+            # other constructors) gets its own instance, so every one of them fails when it is reached
+            ctor_id = self.inject[1]
+            if ctor_id in self.D.transitive_ctor_ids(op["c"]):
+                ty = cat(ctor_id)["out"]
+                cop, owner = self.D.ctor_of[ty]
+                return self.handled(ctor_id, owner, cop)
+            return None
         if self.inject[0] is op:
             ctor_id = self.inject[1]
             ty = cat(ctor_id)["out"]
@@ -568,6 +577,12 @@ def acceptable_runs(an, P, plan):
     if len(failing_ctors) > 1:
         return None  # not modelled
     ctor_id = failing_ctors[0]
+    if D.lifecycle_of(cat(ctor_id)["out"]) == "transient":
+        # error handlers / observers that need the transient themselves are outside the model
+        users = [cid for (cid, kind, ty, mode) in D.sites if ty == cat(ctor_id)["out"] and kind in ("eh", "obs")]
+        if users:
+            return None
+        return [Sim(an, P, plan, inject=("EVERY", ctor_id)).run()]
     out = [Sim(an, P, plan, inject=("START", ctor_id)).run()]
     for op in P.components():
         out.append(Sim(an, P, plan, inject=(op, ctor_id)).run())
